@@ -222,15 +222,23 @@ def run(lines, init_defs, headers=None, _defs=None, _chain=()):
 
 # ------------------------------------------------------------- substitution
 def substitute(line: str, defs: dict) -> str:
-    """Replace macro uses in a code line (single pass per macro, identifier
-    boundaries; function-like macros need a following parenthesised list)."""
+    """Replace macro uses in a code line (identifier boundaries; function-like macros need a following
+    parenthesised list).  The result is rescanned: a body that mentions another macro is expanded further,
+    whatever the order of the definitions; a macro whose body mentions its own name is applied once."""
     out = line
-    for name, val in defs.items():
-        if isinstance(val, tuple):
-            params, body = val
-            out = _subst_fn(out, name, params, body)
-        else:
-            out = re.sub(rf"(?<![\w$]){re.escape(name)}(?![\w$])", lambda m: val, out)
+    for rnd in range(12):
+        before = out
+        for name, val in defs.items():
+            body = val[1] if isinstance(val, tuple) else val
+            if rnd and re.search(rf"(?<![\w$]){re.escape(name)}(?![\w$])", body):
+                continue
+            if isinstance(val, tuple):
+                params, body = val
+                out = _subst_fn(out, name, params, body)
+            else:
+                out = re.sub(rf"(?<![\w$]){re.escape(name)}(?![\w$])", lambda m: val, out)
+        if out == before:
+            break
     return out
 
 
@@ -263,6 +271,8 @@ def _subst_fn(line, name, params, body):
         if depth:
             return res + line[i:]
         args = [a.strip() for a in _split_args(line[m.end():j - 1])]
+        if not params and args == [""]:
+            args = []          # F() has no argument
         if len(args) != len(params):
             res += line[i:j]
             i = j
